@@ -128,9 +128,13 @@ func TestSxReplay(t *testing.T) {
 			continue
 		}
 		fmt.Printf("SXBEGIN file=%%s\n", p)
-		if rep <= 0 {
+		if rep == 0 {
 			sxRunOne(p)
 			continue
+		}
+		fixedSeed := rep < 0
+		if fixedSeed {
+			rep = -rep
 		}
 		// distribution replay: run the harness under many seeds and count the outcomes
 		counts := map[string]int{}
@@ -139,7 +143,11 @@ func TestSxReplay(t *testing.T) {
 			if err != nil || sxRegistry[h] == nil {
 				break
 			}
-			rand.Seed(int64(r)*7919 + 1)
+			if fixedSeed {
+				rand.Seed(12345) // determinism replay: same seed, same input, repeated
+			} else {
+				rand.Seed(int64(r)*7919 + 1)
+			}
 			func() {
 				defer func() { recover() }()
 				sxRegistry[h]()
@@ -170,7 +178,19 @@ func (nb *nativeBuilder) binary(inCmd, race bool) (string, error) {
 	files, _ := filepath.Glob(glob)
 	ov := map[string]string{}
 	var names []string
+	if inCmd {
+		if b, err := os.ReadFile("/verif/harness/sx_prelude.go"); err == nil {
+			gen := filepath.Join(nb.dir, "sx_prelude_cmd.go")
+			if err := os.WriteFile(gen, []byte(strings.Replace(string(b), "package zzvh", "package cmd", 1)), 0o644); err != nil {
+				return "", err
+			}
+			ov[filepath.Join(repoDir, pkgDir, prefix+"sx_prelude.go")] = gen
+		}
+	}
 	for _, f := range files {
+		if inCmd && filepath.Base(f) == "sx_prelude.go" {
+			continue
+		}
 		ov[filepath.Join(repoDir, pkgDir, prefix+filepath.Base(f))] = f
 		b, err := os.ReadFile(f)
 		if err != nil {
